@@ -72,7 +72,8 @@ package redis
 //@   ensures @idx nodeIdx == old(r.nodeIdx) && sreq != nil && sreq.body != nil && len(sreq.body.Array) >= 2
 
 //@ func (*scanRequest).Convert$1
-//@   prop C18 C11
+//@   prop C18 C11 C01
+//@   requires @hooks-run-once-the-reply-is-set req != nil && req.resp != nil
 
 //@ func (*scanRequest).Convert$2
 //@   prop C18 C11
@@ -736,11 +737,13 @@ package redis
 //@   requires c != nil
 
 //@ func handleSimpleCommand$1
-//@   prop C02
+//@   prop C02 C01
+//@   requires @hooks-run-once-the-reply-is-set simpleReq != nil && simpleReq.resp != nil
 //@   consumes deref(req)
 
 //@ func handleEval$1
-//@   prop C02
+//@   prop C02 C01
+//@   requires @hooks-run-once-the-reply-is-set simpleReq != nil && simpleReq.resp != nil
 //@   consumes deref(req)
 
 //@ func (*encoder).Encode
@@ -767,9 +770,19 @@ package redis
 
 // ---- C01: one reply per request, in request order -------------------------------------------------------
 
+//@ func (*rawRequest).Wait
+//@   prop C01
+//@   requires r != nil
+//@   modifies all
+//@   ensures @completed-with-a-reply r.resp != nil
+//@   assume @ret r.resp != nil
+
 //@ func (*session).loopRead
 //@   prop C01
-//@   requires s != nil && s.p != nil && s.dec != nil && s.processingReqs != nil
+//@   requires s != nil && s.p != nil && s.dec != nil && s.processingReqs != nil && decoderOK(s.dec)
+//@   requires @handlers-wellformed forall k string :: has(s.p.cmdHdlrs, k) ==> s.p.cmdHdlrs[k] != nil
+//@   loop 0 assume decoderOK(s.dec)
+//@   assume @before:handleRequest forall k string :: has(s.p.cmdHdlrs, k) ==> s.p.cmdHdlrs[k] != nil
 //@   callpre handleRequest @the-request-just-decoded-is-dispatched arg1 == req && req.body == v && handledn - old(handledn) == sentcount(s.processingReqs) - old(sentcount(s.processingReqs))
 //@   callpre send:processingReqs @the-dispatched-request-is-queued-once arg0 == lasthandled && arg0.body == v && handledn - old(handledn) == sentcount(s.processingReqs) - old(sentcount(s.processingReqs)) + 1
 //@   loop 0 invariant handledn - old(handledn) == sentcount(s.processingReqs) - old(sentcount(s.processingReqs))
